@@ -17,7 +17,8 @@ import itertools
 
 from hypothesis import strategies as st
 
-from pav import gens, refproto, ser
+from pav import gens, refproto, ser, sockops
+import pyairtouch.comms.socket as sockmod
 from pav.harness import Stats, Violation, drive, given_test
 from pav.rig import SockRig, console_frames
 
@@ -29,7 +30,7 @@ RULE = ("generated frame streams x enumerated/generated cut sets x generated int
 ASSUMPTIONS = ["frames are produced by the library's own encoder (its round trip is the subject of C03)",
                "one socket is reused for all segmentations of one stream (a long-lived connection)"]
 
-GAPS = ["none", "turn1", "turn3", "settle", "advance", "advance31", "advance301"]
+GAPS = ["none", "turn1", "turn3", "settle", "advance", "advance31", "advance301", "send"]
 
 
 def _turns(loop, n):
@@ -80,6 +81,15 @@ class StreamRig:
                 loop.advance(31.0)       # a stall of half a minute inside a frame
             elif gap == "advance301":
                 loop.advance(301.0)      # ... of five minutes (longer than every interval the client knows)
+            elif gap == "send":
+                # the connection is full duplex: the client transmits a request of its own while a frame is half received
+                # (nothing of the transmit path may disturb the frame being assembled)
+                loop.settle()
+                r = rig.send(sockops.build(self.gen, "ac_req", []), sockmod.RETRY_IDEMPOTENT)
+                if r[0] != "ok":
+                    raise Violation("C13:send-failed", f"send between two segments: {r!r}", dict(self.case_base, cuts=list(cuts), gap=gap))
+                loop.settle()
+                self.sends_between = getattr(self, "sends_between", 0) + 1
         loop.settle()
         self.n_feeds += 1
         out = [((h.to_address, h.from_address, h.packet_id, h.message_id, h.message_length), m)
@@ -172,6 +182,15 @@ def run_stream(gen, msgs, extra_cutsets, gaps_cycle, tier, stats: Stats | None, 
             go([n - 2], "advance31")
             go([n - 1], "advance301")
             classes.append("long-stall-mid-frame")
+            # a request of the client's own goes out while a frame is half received: after the header, inside the payload,
+            # between and before the check bytes of the first frames
+            for st0 in starts_[:3]:
+                for c in (st0 + hl_, st0 + hl_ + 1, min(n - 1, st0 + hl_ + 3)):
+                    if 0 < c < n:
+                        go([c], "send")
+            go([n - 2], "send")
+            go([n - 1], "send")
+            classes.append("send-between-segments")
         pair_limit, triple_limit = (40, 0) if tier == "quick" else (64, 64)
         if n <= pair_limit:
             for cs in itertools.combinations(range(1, n), 2):
@@ -270,7 +289,7 @@ def shards(tier: str):
 
 
 def floors(tier: str):
-    f = {"single-cuts": 100, "segmentations": 10000, "connection-lost-mid-stream": 100, "burst-of-frames": 30, "long-stall-mid-frame": 100, "twin-sockets": 100}
+    f = {"single-cuts": 100, "segmentations": 10000, "connection-lost-mid-stream": 100, "burst-of-frames": 30, "long-stall-mid-frame": 100, "twin-sockets": 100, "send-between-segments": 100}
     f["exhaustive-2cuts" if tier == "quick" else "exhaustive-3cuts"] = 3
     return f
 
